@@ -9,7 +9,7 @@ LEVEL = 'exploration'
 RULE = ('Hypothesis draws configuration and a history mixing ordinary client traffic with raw '
         'requests from the admission cross product (any method, query pieces incl. garbage, '
         'JSONP, Origin, partial upgrade headers, malformed bodies: bad digits, bad base64, deep '
-        'JSON, invalid UTF-8, empty, huge counts, bad Content-Length), issued at every point of '
+        'JSON, invalid UTF-8, empty, huge counts, bad Content-Length, mixed-case / q-valued Accept-Encoding with compression on, a 1100-character sid, echoed headers with non-latin-1 text), issued at every point of '
         'the history with and without a poll pending and with the client gone, plus '
         'send()/disconnect(sid)/disconnect() in every state including an empty table. Oracle: '
         'gateway validators (WSGI: start_response once, status line, (str,str) headers, iterable '
